@@ -92,7 +92,7 @@ func (t *loopTr) sliceRecv() *ast.Ident {
 
 // noStrings rejects the carrier []string where a value of that type is not the result of a library call.
 func (t *loopTr) noStrings(k lkind, at ast.Node, what string) {
-	if k == kStrings {
+	if k == kStrings && !t.big2StringsOK(at, what) { // (stage 12, loops_big2.go: a named []string type of the package)
 		t.fail(at, "%s of type []string is not supported ([]string values are only supported as the result of a library call, bound to a local variable or ranged over, and are read-only)", what)
 	}
 }
@@ -126,6 +126,9 @@ var externFns = map[string]externFn{
 	// stage 9 (loops_arr.go): the result is a [32]byte array, by value: a list ASSUMED to have length 32
 	"golang.org/x/crypto/blake2b.Sum256": {param: "blake2b_Sum256", ty: "List (BitVec 8) → List (BitVec 8)", args: []lkind{kBytes}, ret: kBytes,
 		note: "the library function golang.org/x/crypto/blake2b.Sum256, bytes ↦ digest, a [32]byte array returned by value — not modelled; ASSUMED total, pure and to return a list of length 32, see the header, stage 9; passed in by the caller"},
+	// stage 12 (loops_big2.go): likewise
+	"crypto/sha256.Sum256": {param: "sha256_Sum256", ty: "List (BitVec 8) → List (BitVec 8)", args: []lkind{kBytes}, ret: kBytes,
+		note: "the library function crypto/sha256.Sum256, bytes ↦ digest, a [32]byte array returned by value — not modelled; ASSUMED total, pure and to return a list of length 32, see the header, stage 12; passed in by the caller"},
 }
 
 // externMethods: methods of package-level variables of a library type, by "import path.Type.method"; the parameter is
